@@ -18,6 +18,11 @@ template <> struct Scales<float>
     static const int* k3 () { static const int v[7] = {-40, -2, -1, 0, 1, 2, 40}; return v; }
     static const int* k4 () { static const int v[5] = {-30, -1, 0, 1, 30}; return v; }
     static const int* k4a () { static const int v[5] = {-40, -1, 0, 1, 40}; return v; }
+    // graded (per-row / per-column) exponents and the tiny-entry exponents: K1 keeps every intermediate of an elimination
+    // exact (2*K1 <= digits), K2 > digits does not
+    static int g1 () { return 12; }
+    static int g2 () { return 30; }
+    static int gmix () { return 18; }
 };
 template <> struct Scales<double>
 {
@@ -28,6 +33,9 @@ template <> struct Scales<double>
     static const int* k3 () { static const int v[7] = {-330, -2, -1, 0, 1, 2, 330}; return v; }
     static const int* k4 () { static const int v[5] = {-250, -1, 0, 1, 250}; return v; }
     static const int* k4a () { static const int v[5] = {-330, -1, 0, 1, 330}; return v; }
+    static int g1 () { return 26; }
+    static int g2 () { return 60; }
+    static int gmix () { return 40; }
 };
 
 template <int N> inline bool last_column_unit (const int* a)
@@ -268,6 +276,297 @@ template <class T> void run ()
             s.flush (tl, "4x4");
         });
         std::string b = "every non-singular affine 3x3 (block L(2), translation L(1)^2, block scale |k|<=4) and 4x4 (block {0,+-1}^9, 3 translations, |k|<=2): last column perturbed entry by entry by +-denorm_min, +-eps (zeros) and 1+eps, 1-eps/2 (the one); general-path result against the exact inverse and against the fast-path result";
+        if (ok) R ().stage_done (b); else R ().stage_partial (b);
+    }
+    // ---------------------------------------------------------------- graded row / column scalings (audit2 S2, S3)
+    // M = diag(2^r) A diag(2^c).  Uniform and affine-block column scalings (the stages above) never change which row
+    // holds the largest entry of a column and never grade the columns of a non-affine matrix; these do.  The exact
+    // inverse stays adj/det scaled entrywise; on singular A the determinant-based forms still compute an exact zero
+    // (all terms of a determinant share one exponent) and the provable-zero-pivot classes are invariant (an
+    // elimination with a given pivot order commutes exactly with power-of-two row and column scalings).
+    if (R ().stage ("graded-scaling." + tl))
+    {
+        const int K1 = Scales<T>::g1 (), K2 = Scales<T>::g2 (), KM = Scales<T>::gmix ();
+        const int e5[5] = {0, -K1, K1, -K2, K2}, e3[3] = {0, -K2, K2}, em[3] = {0, -KM, KM};
+        const int* ev = th ? e5 : e3;
+        const int  ne = th ? 5 : 3;
+        // 3x3: all {0,+-1}^9 x row exponents ev^3 (columns 0), x column exponents ev^3 (rows 0); thorough: x em^3 x em^3 mixed
+        const uint64_t n3 = ex::ipow (ne, 3);
+        bool ok = vf::parallel_chunks (ex::ipow (3, 9), 1u << 6, [&] (uint64_t lo, uint64_t hi, unsigned) {
+            Stats s;
+            int   a[9];
+            const int zero[3] = {0, 0, 0};
+            for (uint64_t i = lo; i < hi; ++i)
+            {
+                ex::decode (i, 3, 9, a, -1);
+                Oracle<3> O;
+                oracle_base<3> (a, O);
+                for (uint64_t q = 1; q < n3; ++q)
+                {
+                    int d[3], e[3];
+                    ex::decode (q, ne, 3, d, 0);
+                    for (int z = 0; z < 3; ++z) e[z] = ev[d[z]];
+                    oracle_scale2<3> (O, e, zero); check_forms<T, 3> (O, s);
+                    if (e[0] == e[1] && e[1] == e[2]) continue; // uniform column scalings: stage inv33
+                    oracle_scale2<3> (O, zero, e); check_forms<T, 3> (O, s);
+                }
+                if (th)
+                    for (uint64_t q = 0; q < 27 * 27; ++q)
+                    {
+                        int d[6], r[3], c[3];
+                        ex::decode (q, 3, 6, d, 0);
+                        bool rz = true, cz = true;
+                        for (int z = 0; z < 3; ++z) { r[z] = em[d[z]]; c[z] = em[d[3 + z]]; if (r[z]) rz = false; if (c[z]) cz = false; }
+                        if (rz || cz) continue;
+                        oracle_scale2<3> (O, r, c); check_forms<T, 3> (O, s);
+                    }
+            }
+            s.flush (tl, "3x3");
+        });
+        // 4x4: all 0/1 x row exponents; quick {0,K2}^4 and one row 2^-K2, thorough {0,+-K2}^4 and one-signed K1; column exponents: one column +-K2
+        // (thorough: one-signed {0,+-K2}^4)
+        ok = vf::parallel_chunks (65536, 1u << 7, [&] (uint64_t lo, uint64_t hi, unsigned) {
+            Stats s;
+            int   a[16];
+            const int zero[4] = {0, 0, 0, 0};
+            for (uint64_t i = lo; i < hi; ++i)
+            {
+                ex::decode (i, 2, 16, a, 0);
+                Oracle<4> O;
+                oracle_base<4> (a, O);
+                if (th)
+                    for (uint64_t q = 1; q < 81; ++q)
+                    {   // every sign mix of the larger exponent
+                        int d[4], e[4];
+                        ex::decode (q, 3, 4, d, 0);
+                        bool one_signed = true;
+                        for (int z = 0; z < 4; ++z) { e[z] = e3[d[z]]; }
+                        for (int z = 0; z < 4; ++z) for (int y = 0; y < 4; ++y) if (e[z] * e[y] < 0) one_signed = false;
+                        if (one_signed) continue; // below
+                        oracle_scale2<4> (O, e, zero); check_forms<T, 4> (O, s);
+                    }
+                for (int sg = -1; sg <= 1; sg += 2)
+                    for (int q = 1; q < 16; ++q)
+                    {
+                        int e[4], e1[4];
+                        for (int z = 0; z < 4; ++z) { e[z] = ((q >> z) & 1) ? sg * K2 : 0; e1[z] = ((q >> z) & 1) ? sg * K1 : 0; }
+                        if (th || sg > 0 || (q & (q - 1)) == 0) { oracle_scale2<4> (O, e, zero); check_forms<T, 4> (O, s); }
+                        if (th) { oracle_scale2<4> (O, e1, zero); check_forms<T, 4> (O, s); }
+                        if (q == 15) continue; // uniform column scaling: stage inv44
+                        if (th || (q & (q - 1)) == 0) { oracle_scale2<4> (O, zero, e); check_forms<T, 4> (O, s); }
+                    }
+            }
+            s.flush (tl, "4x4");
+        }) && ok;
+        // 4x4 affine: block {0,+-1}^9, translation (1,-1,2); block rows graded {0,+-K2}^3 (row 3 unscaled keeps the unit corner),
+        // block columns graded {0,+-K2}^3
+        ok = vf::parallel_chunks (ex::ipow (3, 9), 1u << 6, [&] (uint64_t lo, uint64_t hi, unsigned) {
+            Stats s;
+            const int zero[4] = {0, 0, 0, 0};
+            for (uint64_t i = lo; i < hi; ++i)
+            {
+                int blk[9], a[16] = {0};
+                ex::decode (i, 3, 9, blk, -1);
+                for (int r = 0; r < 3; ++r) for (int c = 0; c < 3; ++c) a[r * 4 + c] = blk[r * 3 + c];
+                a[12] = 1; a[13] = -1; a[14] = 2; a[15] = 1;
+                Oracle<4> O;
+                oracle_base<4> (a, O);
+                for (uint64_t q = 1; q < 27; ++q)
+                {
+                    int d[3], e[4] = {0, 0, 0, 0};
+                    ex::decode (q, 3, 3, d, 0);
+                    for (int z = 0; z < 3; ++z) e[z] = e3[d[z]];
+                    oracle_scale2<4> (O, e, zero); check_forms<T, 4> (O, s);
+                    if (e[0] == e[1] && e[1] == e[2]) continue;
+                    oracle_scale2<4> (O, zero, e); check_forms<T, 4> (O, s);
+                }
+            }
+            s.flush (tl, "4x4");
+        }) && ok;
+        std::string b = "all 19683 {0,+-1} 3x3 x row exponents {0,+-" + std::string (th ? std::to_string (K1) + ",+-" : "") + std::to_string (K2) + "}^3 and x column exponents of the same set" +
+                        (th ? " and x mixed row x column exponents {0,+-" + std::to_string (KM) + "}^3 x {0,+-" + std::to_string (KM) + "}^3" : "") +
+                        "; all 65536 0/1 4x4 x " + (th ? "row exponents {0,+-" + std::to_string (K2) + "}^4 and one-signed {0,+-" + std::to_string (K1) + "}^4, column exponents one-signed {0,+-" + std::to_string (K2) + "}^4"
+                                                       : "row exponents {0," + std::to_string (K2) + "}^4 and one row scaled by 2^-" + std::to_string (K2) + ", one column scaled by 2^+-" + std::to_string (K2)) +
+                        "; affine 4x4 (block {0,+-1}^9, translation (1,-1,2)) x block-row and block-column exponents {0,+-" + std::to_string (K2) + "}^3; eight forms each";
+        if (ok) R ().stage_done (b); else R ().stage_partial (b);
+    }
+
+    // ---------------------------------------------------------------- tiny entry (pivot magnitude; nearly singular)
+    if (R ().stage ("tiny-entry." + tl))
+    {
+        const int K1 = Scales<T>::g1 (), K2 = Scales<T>::g2 (), KU = std::numeric_limits<T>::digits - 2;
+        // 3x3: every {0,+-1}^9 matrix, every zero entry replaced by +-2^-K1, +-2^-K2, every non-zero entry moved by +-2^-KU (two ulps of 1)
+        bool ok = vf::parallel_chunks (ex::ipow (3, 9), 1u << 6, [&] (uint64_t lo, uint64_t hi, unsigned) {
+            Stats s;
+            int   a[9];
+            for (uint64_t i = lo; i < hi; ++i)
+            {
+                ex::decode (i, 3, 9, a, -1);
+                i128 A[9], adj[9], det = 0;
+                for (int z = 0; z < 9; ++z) A[z] = a[z];
+                ex::adj_exact (A, 3, adj);
+                for (int j = 0; j < 3; ++j) det += A[j] * adj[j * 3];
+                for (int z = 0; z < 9; ++z)
+                    for (int sg = -1; sg <= 1; sg += 2)
+                    {
+                        if (a[z]) { check_tiny<T, 3> (a, adj, det, z / 3, z % 3, sg, KU, s); continue; }
+                        check_tiny<T, 3> (a, adj, det, z / 3, z % 3, sg, K1, s); check_tiny<T, 3> (a, adj, det, z / 3, z % 3, sg, K2, s);
+                    }
+            }
+            s.flush (tl, "3x3");
+        });
+        // 2x2 over L(2): the determinant-based form only
+        {
+            Stats s;
+            for (uint64_t i = 0; i < 625; ++i)
+            {
+                int a[4];
+                ex::decode (i, 5, 4, a, -2);
+                i128 A[4], adj[4], det = 0;
+                for (int z = 0; z < 4; ++z) A[z] = a[z];
+                ex::adj_exact (A, 2, adj);
+                for (int j = 0; j < 2; ++j) det += A[j] * adj[j * 2];
+                for (int z = 0; z < 4; ++z)
+                    for (int sg = -1; sg <= 1; sg += 2)
+                    {
+                        if (a[z]) { check_tiny<T, 2> (a, adj, det, z / 2, z % 2, sg, KU, s); continue; }
+                        check_tiny<T, 2> (a, adj, det, z / 2, z % 2, sg, K1, s); check_tiny<T, 2> (a, adj, det, z / 2, z % 2, sg, K2, s);
+                    }
+            }
+            s.flush (tl, "2x2");
+        }
+        // 4x4: every 0/1 matrix, every zero entry replaced by +-2^-K2 (thorough: and +-2^-K1; and the affine family with block {0,+-1}^9)
+        ok = vf::parallel_chunks (65536, 1u << 7, [&] (uint64_t lo, uint64_t hi, unsigned) {
+            Stats s;
+            int   a[16];
+            for (uint64_t i = lo; i < hi; ++i)
+            {
+                ex::decode (i, 2, 16, a, 0);
+                i128 A[16], adj[16], det = 0;
+                for (int z = 0; z < 16; ++z) A[z] = a[z];
+                ex::adj_exact (A, 4, adj);
+                for (int j = 0; j < 4; ++j) det += A[j] * adj[j * 4];
+                for (int z = 0; z < 16; ++z)
+                    for (int sg = -1; sg <= 1; sg += 2)
+                    {
+                        if (a[z]) { if (th) check_tiny<T, 4> (a, adj, det, z / 4, z % 4, sg, KU, s); continue; }
+                        check_tiny<T, 4> (a, adj, det, z / 4, z % 4, sg, K2, s); if (th || sg > 0) check_tiny<T, 4> (a, adj, det, z / 4, z % 4, sg, K1, s);
+                    }
+            }
+            s.flush (tl, "4x4");
+        }) && ok;
+        ok = vf::parallel_chunks (ex::ipow (3, 9), 1u << 6, [&] (uint64_t lo, uint64_t hi, unsigned) {
+            Stats s;
+            for (uint64_t i = lo; i < hi; ++i)
+            {
+                int blk[9], a[16] = {0};
+                ex::decode (i, 3, 9, blk, -1);
+                for (int r = 0; r < 3; ++r) for (int c = 0; c < 3; ++c) a[r * 4 + c] = blk[r * 3 + c];
+                a[12] = 1; a[13] = 0; a[14] = -1; a[15] = 1;
+                i128 A[16], adj[16], det = 0;
+                for (int z = 0; z < 16; ++z) A[z] = a[z];
+                ex::adj_exact (A, 4, adj);
+                for (int j = 0; j < 4; ++j) det += A[j] * adj[j * 4];
+                for (int z = 0; z < 16; ++z)
+                {
+                    if (a[z]) continue;
+                    for (int sg = -1; sg <= 1; sg += 2) { check_tiny<T, 4> (a, adj, det, z / 4, z % 4, sg, K2, s); if (th) check_tiny<T, 4> (a, adj, det, z / 4, z % 4, sg, K1, s); }
+                }
+            }
+            s.flush (tl, "4x4");
+        }) && ok;
+        std::string b = "every zero entry of every {0,+-1,+-2} 2x2, {0,+-1} 3x3 and 0/1 4x4 replaced by +-2^-" + std::to_string (K1) + ", +-2^-" + std::to_string (K2) + (th ? "" : " (4x4: -2^-" + std::to_string (K1) + " in the thorough tier only)") + ", every non-zero entry of the 2x2 and 3x3" + (th ? " and 4x4" : "") +
+                        " moved by +-2^-" + std::to_string (KU) + "; every zero entry of every affine 4x4 (block {0,+-1}^9, translation (1,0,-1)) replaced by +-2^-" + std::to_string (K2) + (th ? ", +-2^-" + std::to_string (K1) : "") +
+                        "; eight forms against the exact rational inverse";
+        if (ok) R ().stage_done (b); else R ().stage_partial (b);
+    }
+
+    // ---------------------------------------------------------------- non-zero determinant, overflowing quotients (audit2 S1)
+    if (R ().stage ("overflow-guard." + tl))
+    {
+        // exponent b of the scaling: the exact quotients are (adj/det) * 2^b with |adj/det| in [1/48, 8]; the library's
+        // threshold is 2^G (G = emax-1), "must be identity" starts at 2^(G+2)
+        const int G = Lim<T>::guard_exp ();
+        std::vector<int> bs;
+        if (th) for (int b = G - 6; b <= G + 8; ++b) bs.push_back (b);
+        else { const int q[6] = {G - 6, G - 1, G, G + 2, G + 3, G + 8}; bs.assign (q, q + 6); }
+        // families on an n x n block (n = N, or N-1 for the affine family): one column scaled by 2^-b, one row scaled by 2^-b,
+        // and row j0 by 2^-(b/2) together with column i0 by 2^-(b-b/2) (isolates the single quotient (i0,j0))
+        auto families = [&] (int n, int N, int fam, int b, int* re, int* ce) {
+            for (int z = 0; z < N; ++z) re[z] = ce[z] = 0;
+            if (fam < n) ce[fam] = -b;
+            else if (fam < 2 * n) re[fam - n] = -b;
+            else { int f = fam - 2 * n; re[f / n] = -(b / 2); ce[f % n] = -(b - b / 2); }
+        };
+        // 2x2: all L(3)
+        {
+            Stats s;
+            for (uint64_t i = 0; i < ex::ipow (7, 4); ++i)
+            {
+                int a[4], re[2], ce[2];
+                ex::decode (i, 7, 4, a, -3);
+                Oracle<2> O;
+                oracle_base<2> (a, O);
+                if (O.singular) continue;
+                for (int fam = 0; fam < 8; ++fam)
+                    for (int b : bs) { families (2, 2, fam, b, re, ce); oracle_scale2<2> (O, re, ce); check_overflow<T, 2> (O, s); }
+            }
+            s.flush (tl, "2x2");
+        }
+        // 3x3: all {0,+-1}^9 (the general path, and the affine path for those with a unit last column and an untouched last row/column);
+        // affine 3x3: block L(2), translation {0,+-1}^2
+        bool ok = vf::parallel_chunks (ex::ipow (3, 9), 1u << 6, [&] (uint64_t lo, uint64_t hi, unsigned) {
+            Stats s;
+            int   a[9], re[3], ce[3];
+            for (uint64_t i = lo; i < hi; ++i)
+            {
+                ex::decode (i, 3, 9, a, -1);
+                Oracle<3> O;
+                oracle_base<3> (a, O);
+                if (O.singular) continue;
+                for (int fam = 0; fam < 15; ++fam)
+                    for (int b : bs) { families (3, 3, fam, b, re, ce); oracle_scale2<3> (O, re, ce); check_overflow<T, 3> (O, s); }
+            }
+            s.flush (tl, "3x3");
+        });
+        {
+            Stats s;
+            for (uint64_t i = 0; i < 625 * 9; ++i)
+            {
+                int blk[4], tr[2], a[9] = {0}, re[3], ce[3];
+                ex::decode (i % 625, 5, 4, blk, -2);
+                ex::decode (i / 625, 3, 2, tr, -1);
+                a[0] = blk[0]; a[1] = blk[1]; a[3] = blk[2]; a[4] = blk[3]; a[6] = tr[0]; a[7] = tr[1]; a[8] = 1;
+                Oracle<3> O;
+                oracle_base<3> (a, O);
+                if (O.singular) continue;
+                for (int fam = 0; fam < 8; ++fam)
+                    for (int b : bs) { families (2, 3, fam, b, re, ce); oracle_scale2<3> (O, re, ce); check_overflow<T, 3> (O, s); }
+            }
+            s.flush (tl, "3x3");
+        }
+        // 4x4 affine: block {0,+-1}^9, translation (1,-1,1) (thorough: and (0,0,0)); |translation| <= 1 keeps the exact
+        // translation row below 3 x the block quotients
+        ok = vf::parallel_chunks (ex::ipow (3, 9) * (th ? 2 : 1), 1u << 6, [&] (uint64_t lo, uint64_t hi, unsigned) {
+            Stats s;
+            for (uint64_t i = lo; i < hi; ++i)
+            {
+                int blk[9], a[16] = {0}, re[4], ce[4];
+                ex::decode (i % 19683, 3, 9, blk, -1);
+                for (int r = 0; r < 3; ++r) for (int c = 0; c < 3; ++c) a[r * 4 + c] = blk[r * 3 + c];
+                if (i < 19683) { a[12] = 1; a[13] = -1; a[14] = 1; }
+                a[15] = 1;
+                Oracle<4> O;
+                oracle_base<4> (a, O);
+                if (O.singular) continue;
+                for (int fam = 0; fam < 15; ++fam)
+                    for (int b : bs) { families (3, 4, fam, b, re, ce); oracle_scale2<4> (O, re, ce); check_overflow<T, 4> (O, s); }
+            }
+            s.flush (tl, "4x4");
+        }) && ok;
+        std::string b = "every non-singular L(3) 2x2, {0,+-1} 3x3, affine 3x3 (block L(2), translation {0,+-1}^2) and affine 4x4 (block {0,+-1}^9, translation (1,-1,1)" + std::string (th ? " and 0" : "") +
+                        ") x {one column, one row, one row and one column} of the (block) scaled by 2^-b, b in " + (th ? "[" + std::to_string (G - 6) + "," + std::to_string (G + 8) + "]" : "{G-6,G-1,G,G+2,G+3,G+8}, G=" + std::to_string (G)) +
+                        ": determinant-based forms return the identity when an exact quotient reaches 2^" + std::to_string (G + 2) + ", a finite accurate inverse when all are below max/4";
         if (ok) R ().stage_done (b); else R ().stage_partial (b);
     }
 }
